@@ -96,7 +96,7 @@ fn c10_writer_date_part() {
 // 0/3/6/9 digits by three remainder tests and prints through core::fmt's zero padding; with the fraction symbolic all of
 // that stays in the formula even when only the clock digits are asserted). The writer computes the clock digits, the
 // leap adjustment (`sec += 1; nano -= 10^9`) and the fraction text one after the other from separate inputs.
-// @ob tier=quick timeout=900 mem=8
+// @ob tier=quick timeout=900 mem=14
 // @desc RFC 3339 writer, clock digits: on the fixed wall-clock date 2001-07-08 at +00:00, for every whole second of the day the text is 2001-07-08THH:MM:SS+00:00 with zero-padded hour, minute and second, and no fraction
 // @bounds all 86400 seconds of the day, fraction 0 (concrete); date and offset concrete
 // @funcs write_rfc3339 (time), NaiveTime::hms, write_hundreds
@@ -116,7 +116,7 @@ fn c10_writer_time_hms() {
     kani::cover!(secs == 86_399);
 }
 
-// @ob tier=quick timeout=900 mem=8
+// @ob tier=thorough timeout=3600 mem=14
 // @desc RFC 3339 writer, leap second: a time in the leap representation (second 59 with fraction 10^9 + f) prints second 60 and the fraction f, for every minute of the day and f = 0 or 500 ms
 // @bounds all 1440 minutes x f in {0, 500_000_000}; date and offset concrete
 // @funcs write_rfc3339 (leap adjustment)
@@ -139,55 +139,71 @@ fn c10_writer_time_leap() {
     kani::cover!(m == 1439);
 }
 
-macro_rules! frac_class {
-    ($name:ident, $nd:expr) => {
-        // @ob tier=quick timeout=900 mem=12
-        // @desc RFC 3339 writer, fraction: at the fixed wall clock 2001-07-08T12:34:56+00:00, for every fraction that needs exactly the stated number of digits (3: whole milliseconds, 6: whole microseconds, 9: anything else; 0 digits is c10_writer_time_hms) the text carries exactly that many fraction digits, equal to the fraction (never rounded, never shortened further)
-        // @bounds all fractions of one digit class per harness (the classes partition all non-zero fractions); date, clock time and offset concrete
-        // @funcs write_rfc3339 (SecondsFormat::AutoSi fraction), core::fmt zero padding
-        #[kani::proof]
-        #[kani::unwind(12)]
-        fn $name() {
-            let k: u32 = kani::any();
-            let nd: usize = $nd;
-            let ns: u32 = match nd {
-                3 => {
-                    kani::assume(k >= 1 && k <= 999);
-                    k * 1_000_000
-                }
-                6 => {
-                    kani::assume(k >= 1 && k <= 999_999 && k % 1000 != 0);
-                    k * 1000
-                }
-                _ => {
-                    kani::assume(k >= 1 && k <= 999_999_999 && k % 1000 != 0);
-                    k
-                }
-            };
-            let t = NaiveTime::from_hms_nano_opt(12, 34, 56, ns).unwrap();
-            let buf = render(NaiveDate::from_ymd_opt(2001, 7, 8).unwrap(), t, FixedOffset::east_opt(0).unwrap());
-            let b = &buf.b;
-            assert!(b[10] == b'T' && b[11] == b'1' && b[12] == b'2' && b[17] == b'5' && b[18] == b'6' && b[19] == b'.');
-            let mut v: u32 = 0;
-            let mut i = 0;
-            while i < 9 {
-                if i < nd {
-                    assert!(dig(b[20 + i]));
-                    v = v * 10 + (b[20 + i] - b'0') as u32;
-                }
-                i += 1;
-            }
-            assert!(v == k);
-            let p = 20 + nd;
-            assert!(b[p] == b'+' && b[p + 1] == b'0' && b[p + 2] == b'0' && b[p + 3] == b':' && b[p + 4] == b'0' && b[p + 5] == b'0');
-            assert!(buf.len == p + 6);
-            kani::cover!(k == 1);
+fn frac_check(nd: usize) {
+    let k: u32 = kani::any();
+    let ns: u32 = match nd {
+        3 => {
+            kani::assume(k >= 1 && k <= 999);
+            k * 1_000_000
+        }
+        6 => {
+            kani::assume(k >= 1 && k <= 999_999 && k % 1000 != 0);
+            k * 1000
+        }
+        _ => {
+            kani::assume(k >= 1 && k <= 999_999_999 && k % 1000 != 0);
+            k
         }
     };
+    let t = NaiveTime::from_hms_nano_opt(12, 34, 56, ns).unwrap();
+    let buf = render(NaiveDate::from_ymd_opt(2001, 7, 8).unwrap(), t, FixedOffset::east_opt(0).unwrap());
+    let b = &buf.b;
+    assert!(b[10] == b'T' && b[11] == b'1' && b[12] == b'2' && b[17] == b'5' && b[18] == b'6' && b[19] == b'.');
+    let mut v: u32 = 0;
+    let mut i = 0;
+    while i < 9 {
+        if i < nd {
+            assert!(dig(b[20 + i]));
+            v = v * 10 + (b[20 + i] - b'0') as u32;
+        }
+        i += 1;
+    }
+    assert!(v == k);
+    let p = 20 + nd;
+    assert!(b[p] == b'+' && b[p + 1] == b'0' && b[p + 2] == b'0' && b[p + 3] == b':' && b[p + 4] == b'0' && b[p + 5] == b'0');
+    assert!(buf.len == p + 6);
+    kani::cover!(k == 1);
 }
-frac_class!(c10_writer_frac_millis, 3);
-frac_class!(c10_writer_frac_micros, 6);
-frac_class!(c10_writer_frac_nanos, 9);
+
+// @ob tier=thorough timeout=3600 mem=14
+// @desc RFC 3339 writer, millisecond fractions: at the fixed wall clock 2001-07-08T12:34:56+00:00, for every fraction that is a whole number of milliseconds (1..=999 ms) the text carries exactly three fraction digits equal to it (never rounded, never shortened further)
+// @bounds all 999 non-zero whole-millisecond fractions; date, clock time and offset concrete
+// @funcs write_rfc3339 (SecondsFormat::AutoSi fraction), core::fmt zero padding
+#[kani::proof]
+#[kani::unwind(12)]
+fn c10_writer_frac_millis() {
+    frac_check(3)
+}
+
+// @ob tier=thorough timeout=5400 mem=20
+// @desc RFC 3339 writer, microsecond fractions: every fraction that is a whole number of microseconds but not of milliseconds prints exactly six digits equal to it
+// @bounds all such fractions; date, clock time and offset concrete (did not finish within the 900 s quick cap: core::fmt's decimal conversion of a 20-bit symbolic value with zero padding)
+// @funcs write_rfc3339 (SecondsFormat::AutoSi fraction), core::fmt zero padding
+#[kani::proof]
+#[kani::unwind(12)]
+fn c10_writer_frac_micros() {
+    frac_check(6)
+}
+
+// @ob tier=thorough timeout=5400 mem=20
+// @desc RFC 3339 writer, nanosecond fractions: every fraction that is not a whole number of microseconds prints exactly nine digits equal to it
+// @bounds all such fractions; date, clock time and offset concrete (did not finish within the 900 s quick cap)
+// @funcs write_rfc3339 (SecondsFormat::AutoSi fraction), core::fmt zero padding
+#[kani::proof]
+#[kani::unwind(12)]
+fn c10_writer_frac_nanos() {
+    frac_check(9)
+}
 
 // @ob tier=quick timeout=900 mem=8
 // @desc RFC 3339 writer, offset part: on the fixed wall clock 2001-07-08T12:34:56, for every whole-minute offset the text ends with +HH:MM / -HH:MM with exact hours and minutes (never `Z`, which only to_rfc3339_opts(.., true) may print)
